@@ -580,7 +580,8 @@ def allowed(entry, arg, kind, state, prog, A=None, pos=None):
     elif kind in ('nan', 'inf', '-inf', 'short', 'long', 'len1', 'empty', 'ydomain'):
         verdict = 'must'
     elif kind == 'wide':
-        verdict = 'must' if needs_fit else 'na'
+        # a fitted model knows its number of features: every entry point except a plain re-`fit` must insist on it
+        verdict = 'must' if (needs_fit or (state == 'fitted' and entry in ('gridsearch', 'poisson_gridsearch', 'fit_quantile'))) else 'na'
     elif kind == 'narrow':
         verdict = 'na' if (not needs_fit and termfeats is None and state != 'fitted') else 'must'
     elif kind == 'cat_out':
@@ -606,23 +607,6 @@ def allowed(entry, arg, kind, state, prog, A=None, pos=None):
     if verdict == 'valid' and needs_fit:
         return {'ok'}, verdict
     return {'ok', 'ValueError'}, verdict
-
-
-def known_gap(entry, arg, kind, state, A, impl):
-    """remaining gaps of the tree under test against the property text (reported as suspected defects, see final report)"""
-    if impl == 'AttributeError@gridsearch' and entry in ('gridsearch', 'poisson_gridsearch'):
-        return ('G5 gridsearch: when every candidate score is NaN no best model is recorded and '
-                '`best_model.get_params` raises AttributeError on valid data')
-    if impl != 'ok':
-        return None
-    if entry in ('loglikelihood', 'poisson_loglikelihood') and kind == 'len1' and arg in ('X', 'y') and state == 'fitted':
-        return 'G1 loglikelihood broadcasts a length-1 X or y against the other instead of rejecting the length mismatch'
-    if entry == 'fit_quantile' and state == 'fitted' and arg == 'weights' and A.get('converged'):
-        return 'G2 fit_quantile on a fitted model whose quantile ratio is already within tol never looks at weights'
-    if entry in ('gridsearch', 'poisson_gridsearch') and state == 'fitted' and arg == 'X' and kind == 'narrow' and impl == 'ok':
-        return ('G4 gridsearch on a fitted model swallows the ValueError of every candidate fit (X lacks a feature the terms need) '
-                'and returns the old model')
-    return None
 
 
 def build_states(cfg, prog, Xtr, ytr, etr, rng):
@@ -829,8 +813,6 @@ def exec_case(case, states):
         except Exception as e:  # noqa
             err = e
     cls = exc_class(err)
-    if cls == 'AttributeError' and _innermost(err) == 'gridsearch':
-        cls = 'AttributeError@gridsearch'
     if cls == 'ValueError' and _raised_in(err, ('_pirls',)):
         # the validation let the data through; the optimiser gave up (allowed by the last sentence of the property)
         cls = 'ValueError@pirls'
@@ -840,15 +822,6 @@ def exec_case(case, states):
 def _stable_seed(key):
     import zlib
     return zlib.crc32('|'.join(str(x) for x in key[:9]).encode()) & 0x7fffffff
-
-
-def _innermost(err):
-    tb = err.__traceback__
-    name = None
-    while tb is not None:
-        name = tb.tb_frame.f_code.co_name
-        tb = tb.tb_next
-    return name
 
 
 def _raised_in(err, names):
@@ -972,9 +945,6 @@ def run_entries(ctx, only=None):
             ctx.count('post-validation ValueError', c['entry'])
             impl_cmp = 'ok' if c['entry'] in REFIT else 'ValueError'
             impl = 'ValueError'
-        elif impl == 'AttributeError@gridsearch':
-            # not a validation outcome at all: the search itself broke after validation passed
-            impl_cmp = 'ok'
         else:
             impl_cmp = impl
         ctx.count('entry', c['entry'])
@@ -990,12 +960,6 @@ def run_entries(ctx, only=None):
         case_desc = dict(sig, key=[str(x) for x in c['key']], args={k: _jsonable(v) for k, v in c['A'].items()}, message=msg,
                          train=dict(X=c['train'][0], y=c['train'][1], exposure=c['train'][2]))
         if impl not in ok_set:
-            gap = known_gap(c['entry'], c['arg'], c['kind'], c['state'], c['A'], impl)
-            if gap is not None and model == impl_cmp:
-                ctx.count('suspected-defect', gap)
-                continue
-            if impl == 'AttributeError@gridsearch':
-                impl = 'AttributeError'
             # confirm by re-execution
             impl2, msg2, _ = exec_case(c, cache.get(c, ctx.subrng('states')))
             if impl2.split('@')[0] == impl:
@@ -1030,8 +994,14 @@ def hostile_cases(ctx, cfgs):
         for n in ns:
             for sc in scens:
                 for tp in tps:
-                    for rep in range(reps):
+                    # overflow-prone scenarios of the exp-type links get extra draws
+                    r = reps + ((6 if sc == 'whuge' else 2) if (sc in ('whuge', 'hugeY', 'randmag') and cfg.link in ('log', 'logit')) else 0)
+                    for rep in range(r):
                         cases.append((cfg.name, n, sc, tp, rep))
+                # a search (unfitted model, more coefficients than rows are possible): same requirement on the outcome
+                if n in (5, 12, 30) and sc in ('plain', 'w0some', 'whuge', 'wtiny', 'constcol', 'hugeY', 'boundaryY', 'randmag'):
+                    for rep in range(reps + 1):
+                        cases.append((cfg.name, n, sc, 'gs', rep))
     return cases
 
 
@@ -1110,40 +1080,18 @@ def hostile_data(cfg, n, sc, rng):
     return X, y, kw
 
 
-def overflow_gap(cfg, y, X=None, linear=False):
-    """G3 selector: the link transform of a valid (finite, in-domain, non-zero) target overflows in float64, or the
-    normal equations X'X / X'link(y) of the initial estimate overflow (linear term on a huge feature)"""
-    yy = np.array(y, dtype=float)
-    yy = yy[yy != 0]
-    with np.errstate(all='ignore'):
-        if cfg.link == 'inverse':
-            t = yy ** -1.0
-        elif cfg.link == 'inv_squared':
-            t = yy ** -2.0
-        elif cfg.link in ('log', 'logit'):
-            t = np.log(np.abs(yy))
-        else:
-            t = yy
-        if not np.isfinite(t).all():
-            return True
-        if linear and X is not None and len(t):
-            b = max(1.0, float(np.abs(np.array(X, dtype=float)).max()))
-            n = len(y)
-            if not (np.isfinite(b * b * n) and np.isfinite(b * float(np.abs(t).max()) * n)):
-                return True
-    return False
-
-
 def run_hostile(ctx, only=None):
     pygam = common.import_pygam()
     from pygam.terms import s, f, l
     st = 'hostile.fits'
     ctx.stream(st, 'fit on valid but hostile data ends in ValueError family or finite coef_ and finite training predictions')
     cfgs = {c.name: c for c in make_configs(pygam)}
-    tprog = {'sf': lambda: s(0, n_splines=5) + f(1), 'lf': lambda: l(0) + f(1), 's': lambda: s(0, n_splines=5)}
+    tprog = {'sf': lambda: s(0, n_splines=5) + f(1), 'lf': lambda: l(0) + f(1), 's': lambda: s(0, n_splines=5),
+             'gs': lambda: s(0, n_splines=12) + f(1) + l(0)}
     cases = hostile_cases(ctx, list(cfgs.values()))
     if only is not None:
         cases = [c for c in cases if list(map(str, c)) == list(map(str, only))]
+    tprog['gs'].search = True
     global _HOSTILE
     _HOSTILE = (ctx.pid, ctx.seed, cfgs, tprog)
     chunks = [cases[k::48] for k in range(48)]
@@ -1160,13 +1108,6 @@ def run_hostile(ctx, only=None):
         ctx.case(st, sig, nontrivial=(sc != 'plain'), sample=dict(sig, outcome=res))
         if res == 'ok-finite' or res.startswith('ValueError'):
             continue
-        if res == 'other:AssertionError' and gap:
-            ctx.count('suspected-defect', 'G3 AssertionError from the assertions of _initial_estimate / _pirls when link(y) or the initial normal equations overflow (tiny targets with the inverse / inv_squared link, huge linear features)')
-            continue
-        if res == 'ok-nonfinite:pred' and cfgs[cname].link in ('log', 'logit'):
-            ctx.count('suspected-defect', 'G6 a fit that did not converge returns finite coef_ whose training predictions overflow in '
-                                          'exp() (NaN / Inf from predict_mu) instead of raising OptimizationError')
-            continue
         X, y, kw = hostile_data(cfgs[cname], n, sc, ctx.subrng('hostile', cname, n, sc, tp, rep))
         res2, _ = _hostile_once(cfgs[cname], tprog[tp], X, y, kw)
         if res2 == res:
@@ -1180,7 +1121,12 @@ def _hostile_once(cfg, mkterms, X, y, kw):
         try:
             g = cfg.mk(mkterms())
             kws = {k: np.array(v, dtype=float) for k, v in kw.items()}
-            g.fit(np.array(X, dtype=float), np.array(y, dtype=float), **kws)
+            if getattr(mkterms, 'search', False):
+                g.gridsearch(np.array(X, dtype=float), np.array(y, dtype=float), lam=[0.01, 0.1, 1.0], progress=False, **kws)
+                if not g._is_fitted:
+                    return 'ValueError:no-candidate-fitted', ''
+            else:
+                g.fit(np.array(X, dtype=float), np.array(y, dtype=float), **kws)
             c = np.asarray(g.coef_, dtype=float)
             p = np.asarray(g.predict_mu(np.array(X, dtype=float)), dtype=float)
             if np.isfinite(c).all() and np.isfinite(p).all():
@@ -1207,7 +1153,7 @@ def _hostile_worker(keys):
             continue
         X, y, kw = d
         res, msg = _hostile_once(cfg, tprog[tp], X, y, kw)
-        out.append((key, res, msg, overflow_gap(cfg, y, X, linear=(tp == 'lf'))))
+        out.append((key, res, msg, None))
     return out
 
 
@@ -1264,8 +1210,8 @@ def run(ctx):
                          'variant, container) signatures.  hostile.fits: class x n x scenario x terms.  utils.*: random arrays / literal-seeded values')
     ctx.partial.append('fit_finite_partial: "a successful fit has finite coefficients and predictions" is floating point; checked by the hostile.fits '
                        'stream on the real code, the model only proves that validation lets through nothing but finite, in-domain, consistent data')
-    ctx.partial.append('entry_rejects_length_partial / entry_rejects_weights_partial: excluded regions (loglikelihood with a length-1 X or y; '
-                       'fit_quantile weights when already converged) are genuine gaps of the code, proved as counter-examples in Props/C11.lean')
+    ctx.partial.append('entry_rejects_category_partial: partial_dependence(term, X) only checks the categorical features of the requested term '
+                       '(deliberate, repair c103169); counter-example of the unrestricted statement proved in Props/C11.lean')
     ctx.assumptions.append('NumPy raises ValueError for ragged nested lists and for non-broadcastable shapes (observed on every run by the entry.calls stream)')
     try:
         import subprocess
